@@ -45,7 +45,7 @@ C05(i) ==
     { <<"C05.invalid_continues",
           (\A k \in Agents : ~Proposes(s, e.a, k)) => (e.ts.type = MID \/ e.i >= TimeLimit)>>,
       <<"C05.invalid_reward",
-          \A k \in bad : Near(e.ts.reward.q[k + 1], IF Connected(s, k) THEN 0 ELSE -3, 100, 2)>>,
+          \A k \in bad : Near(e.ts.reward.q[k + 1], IF Connected(s, k) THEN 0 ELSE StepReward100, 100, 2)>>,
       <<"C05.actor_keeps_position", \A k \in bad : PosOf(t, k) = PosOf(s, k)>>,
       <<"C05.actor_keeps_holdings",
           \A k \in bad : t.agents.start[k + 1] = s.agents.start[k + 1] /\ t.agents.target[k + 1] = s.agents.target[k + 1]>>,
